@@ -56,8 +56,15 @@ RULE = ('per SIMD context (x86 SSE, x86 AVX, vector extension 128/256/512, SIMDe
         'subtract reduce over every axis, axis=-1, axis=None, keepdims on/off, 1-d..4-d shapes; matmul (M,K)x(K,N) with column-major '
         'rhs, row- and column-major lhs. Each structural case carries integer provenance data (lhs id + 1000*rhs id, shuffled distinct summands, products of '
         '2s and 3s: non-zero, non-arange) and is answered three ways: SIMD evaluator (harness appends MISMATCH when it differs from '
-        'the scalar evaluator in the same binary), Lean model, NumPy. Value cases use eighth-valued random data compared bitwise '
-        '(element-wise) or within a re-association tolerance derived from the operand magnitudes (reductions, matmul); special '
+        'the scalar evaluator in the same binary), Lean model, NumPy. Value cases use eighth-valued random data mixed one in three with '
+        'precision-sensitive values of the dtype, compared bitwise (element-wise; precision scope: EVERY unary op (sqrt, ceil, floor and the nine '
+        'activations) and add/subtract/multiply/divide x context x dtype on ~115 (float) / ~135 (double) finite non-zero values whose precision '
+        'matters in that dtype: integers and the activation thresholds with both neighbours at 1 ulp, halves x.5 +-1 ulp, magnitudes around '
+        '2^22..2^24 (float) / 2^51..2^53 (double), doubles that are not floats (2.0000000001, 16777217, 1e10+0.5, 30*0.1), 0.1, 1/3, largest / '
+        'smallest normal and subnormal magnitudes; binary operand pairs with ties of the sum, products and quotients needing every bit, results '
+        'just short of / just past overflow and underflow; every value and pair in a PACKED lane (two alignments) and once in the scalar TAIL, '
+        'plus set1 operands (2-d broadcasting, outer); answered by the SIMD evaluator, the scalar evaluator in the same binary and NumPy '
+        'evaluating the same IEEE-exact operation sequence in the dtype) or within a re-association tolerance derived from the operand magnitudes (reductions, matmul); special '
         'values (-0.0, NaN, inf, denormals) go through every unary op. The pure enumerators are diffed tuple by tuple against the '
         'Lean model for lanes 2,4,8,16. Structural and memory-unsafe cases are repeated under ASan+UBSan. '
         'Integer element types: per context x {int8,uint8,int16,uint16,int32,uint32,int64,uint64} x {add, subtract, multiply where '
